@@ -15,7 +15,7 @@ use crate::util::{all_strings, J};
 
 pub struct C19;
 
-const LADDER: [&str; 21] = [
+const LADDER: [&str; 27] = [
     "(?:(a)|b)b*\\1b",
     "(a)?b+\\1b",
     "(a)*[bc]*\\1b",
@@ -37,10 +37,19 @@ const LADDER: [&str; 21] = [
     "(a)(b)(c)(d)(e)(f)(g)(h)(i)(j)\\100",
     "((a)(b)?)\\1\\3x",
     "(a)(b)(c)(d)(e)(f)(g)(h)(i)(j)(?:\\1|\\10)",
+    // a captured ASCII letter whose copy is a non-ASCII case variant, and the reverse
+    "^(k)\\1$",
+    "^(s)\\1$",
+    "^(\\w+)-\\1$",
+    // counted back-references to a group that is empty or did not participate
+    "^(a*)\\1{2}b$",
+    "^(?:(a)|b)\\1{2}c$",
+    "^(a)\\1{2}$",
 ];
-const LADDER_INPUTS: [&str; 24] = [
+const LADDER_INPUTS: [&str; 36] = [
     "bbb", "bb", "bcc", "cb", "abcab", "abcb", "aabb", "aAbB", "xx-yy.", "abab", "bab", "aaa",
     "abcdefghijj", "abcdefghija0", "abcdefghijaj", "abcdefghia0", "abcdefghijkk", "abcdefghijka2", "aa1", "abba", "abab", "abcdefghijj0", "aax", "abcdefghija",
+    "k\u{212a}", "\u{212a}k", "s\u{17f}", "\u{17f}S", "MASS-ma\u{17f}s", "ma\u{17f}s-MASS", "b", "bc", "aaa", "aab", "aaaab", "abaac",
 ];
 
 fn space_for(tier: Tier) -> (Space, usize) {
@@ -215,7 +224,7 @@ impl Check for C19 {
                     return;
                 }
             };
-            if parsed.ast.backref_in_disputed_position() {
+            if parsed.ast.backref_in_disputed_position_strict() {
                 out.inc("disputed_skipped");
                 return;
             }
